@@ -36,6 +36,9 @@ def opt_sort(sort):
     return _opt_cache[k]
 
 
+SEMANTIC_EQ = set()     # Obj classes whose equality is defined by their model (not identity): never used as identity-hashed dict keys
+
+
 class Obj:
     """heap record: a python-side object with named (possibly symbolic) fields; identity = python identity"""
     _ids = itertools.count()
